@@ -1211,6 +1211,10 @@ class Engine:
             return self.call_closure(f, args, kwargs, st)
         if isinstance(f, ItemGetterV):
             return self.call_itemgetter(f, args, st)
+        if isinstance(f, (BoolV, IntV, RealV, NoneV, StrV)):
+            # calling a non-callable builtin value: TypeError ('bool' object is not callable)
+            self.raise_(st, self.new_exc(st, 'TypeError'))
+            return []
         raise Unsupported('call of %r' % (f,))
 
     def call_userfn(self, f, args, kwargs, st):
